@@ -555,6 +555,121 @@ def r10_6(prog, rep):
                      "where the previous piece ended" % show(nn)[:40])
 
 
+
+def _esccpy_out(prog, text, cache={}):
+    """What esccpy() writes for one piece, by a value-fixed walk of its CFG with the piece's bytes as constants (nothing of echse
+    runs).  Returns the list of byte values written and kept (tgt[0 .. return value))."""
+    from ..absw import AbsWalk, eval_in
+    if text in cache:
+        return cache[text]
+    f = prog.fn("esccpy", "evical.c")
+    cfg = f.cfg
+    tgt, tz, src, sz = (p_["n"] for p_ in f.params)
+    init = {tz: 1000, sz: len(text), "%s[%d]" % (src, len(text)): 0}
+    for k, ch in enumerate(text):
+        init["%s[%d]" % (src, k)] = ord(ch)
+
+    def pre(store, e):
+        """value of e in the state *before* the element's own side effects"""
+        e = strip_casts(cfg.resolve(e))
+        if e.get("k") == "un" and e.get("op") in ("post++", "post--"):
+            return store.get(lv(e["e"]))
+        if e.get("k") == "un" and e.get("op") in ("pre++", "pre--"):
+            v = store.get(lv(e["e"]))
+            return None if v is None else v + (1 if "++" in e["op"] else -1)
+        if e.get("k") == "idx":
+            ix = pre(store, e["i"])
+            return None if ix is None else store.get("%s[%d]" % (lv(e["b"]), ix))
+        if e.get("k") == "bin" and e["op"] == "=":
+            return pre(store, e["r"])
+        return eval_in(store, e, f, None)
+    outs = []
+
+    def effect(b, i, x, store):
+        upd = {}
+        if not isinstance(x, dict):
+            return upd
+        out = dict(store.get("$out", ()))
+        ch = False
+        for l, kind, nn in writes(x):
+            tl = strip_casts(l)
+            if tl.get("k") == "idx" and lv(tl["b"]) == tgt and nn.get("k") == "bin" and nn["op"] == "=":
+                ix, v = pre(store, tl["i"]), pre(store, nn["r"])
+                if ix is None or v is None:
+                    raise AnalysisBroken("esccpy: a store into the target could not be followed (%s)" % show(x)[:50])
+                out[ix] = v
+                ch = True
+        if ch:
+            upd["$out"] = tuple(sorted(out.items()))
+        if x.get("k") == "ret" and x.get("e") is not None:
+            r = eval_in(store, cfg.resolve(x["e"]), f, None)
+            outs.append((r, dict(store.get("$out", ()))))
+        return upd
+    tracked = {l_["n"] for l_ in f.locals} | {tz, sz}
+    w = AbsWalk(f, tracked, init=init, effect=effect, max_states=20000)
+    w.run()
+    res = {tuple(o.get(k) for k in range(r)) if r is not None else None for r, o in outs}
+    if len(res) != 1 or None in res or any(None in t for t in res):
+        raise AnalysisBroken("esccpy(%r): no single result (%s)" % (text, sorted(res, key=str)[:3]))
+    cache[text] = list(next(iter(res)))
+    return cache[text]
+
+
+def r10_7(prog, rep, rid="R10.7", which=("cut", "kept")):
+    """The escape copier branches on five byte values (backslash, n/N, LF, CR) and treats everything else alike, so seven byte
+    classes cover every input.  For every string of up to four classes: (cut) what it writes for the whole string equals what it writes
+    for the two parts of any cut, one after the other — the parser hands it whatever the transport delivered; (kept) two inputs that
+    differ in the byte behind a backslash are not written alike — otherwise that byte is lost to whoever reads the task back."""
+    import itertools
+    f = prog.fn("esccpy", "evical.c")
+    alpha = ["\\", "n", ",", "\n", " ", "x", "\r"]
+    names = {"\\": "\\\\", "\n": "\\n", "\r": "\\r"}
+
+    def pretty(t):
+        return "".join(names.get(c, c) for c in t)
+
+    def o2s(o):
+        return "".join(names.get(chr(v), chr(v)) for v in o)
+    if "cut" in which:
+        bad = []
+        n = nbad = 0
+        for L in (2, 3, 4):
+            for t in itertools.product(alpha, repeat=L):
+                s_ = "".join(t)
+                # the caller chops at line ends: inside what it hands over, a line break is always followed by a fold blank
+                if any(c == "\n" and s_[j + 1] != " " for j, c in enumerate(s_[:-1])):
+                    continue
+                whole = _esccpy_out(prog, s_)
+                for k in range(1, L):
+                    n += 1
+                    parts = _esccpy_out(prog, s_[:k]) + _esccpy_out(prog, s_[k:])
+                    if parts != whole:
+                        nbad += 1
+                        if len(bad) < 400:
+                            bad.append((s_, k, whole, parts))
+        key = "esccpy/output-independent-of-the-cut"
+        if bad:
+            bad.sort(key=lambda b_: (len(b_[0]), b_[0]))
+            ex = "; ".join("`%s` whole -> `%s`, cut after %d -> `%s`" % (pretty(b_[0]), o2s(b_[2]), b_[1], o2s(b_[3])) for b_ in bad[:3])
+            rep.fail(rid, key, f.loc(), "what esccpy() writes depends on where a line is cut into pieces (%d of %d string/cut pairs over the seven byte classes "
+                     "differ, e.g. %s): an escape pair or a line break with its fold blank that straddles two reads of the descriptor is read differently "
+                     "from one that arrives in one piece" % (nbad, n, ex), {"examples": [[pretty(b_[0]), b_[1], o2s(b_[2]), o2s(b_[3])] for b_ in bad[:20]]})
+        else:
+            rep.ok(rid, key, f.loc(), "%d string/cut pairs over the seven byte classes: the parts give what the whole gives" % n)
+    if "kept" in which:
+        key = "esccpy/escaped-byte-kept"
+        outs = {}
+        for c in ("n", ",", ";", "x", "\\", "\""):
+            outs.setdefault(tuple(_esccpy_out(prog, "\\" + c + "x")), []).append(c)
+        lost = [v for v in outs.values() if len(v) > 1]
+        if lost:
+            rep.fail(rid, key, f.loc(), "a backslash followed by %s is written alike (`%s`): the byte behind the backslash does not reach the task — "
+                     "`SUMMARY:a\\, b` is read as `a\\ b`, and every write-and-read cycle of the task eats one more character" % (
+                         " or ".join("`%s`" % names.get(c, c) for c in lost[0]), o2s(next(k for k, v in outs.items() if v is lost[0]))))
+        else:
+            rep.ok(rid, key, f.loc(), "the byte behind a backslash takes part in what is written (6 escapes give 6 different outputs)")
+
+
 def run(prog, rep, tier, snap):
     rep.rule("R10.1", "stash discipline: bounded stores in esccpy, cursor writes, subscripts, partial-line guard", 10)
     rep.call(r10_1, prog, rep)
@@ -569,4 +684,6 @@ def run(prog, rep, tier, snap):
     rep.call(r10_6, prog, rep)
     rep.rule("R10.5", "where a piece ends does not decide what comes out (escape copier, start of a parse)", 2)
     rep.call(r10_5, prog, rep)
+    rep.rule("R10.7", "what the escape copier writes does not depend on where the line is cut", 1)
+    rep.call(r10_7, prog, rep, "R10.7", ("cut",))
 READY = True
